@@ -60,6 +60,6 @@ Definition with_insert (f : ffresp) (ok : bool) : ffresp :=
        (ff_roots f) (ff_events f) (ff_peersets f) ok.
 
 (* a babbling node with 3 events and two delivered blocks; the same node catching up *)
-Definition st_babbling : nstate := mkNS 0 1000 3 [10; 11] 11 [].
-Definition st_suspended : nstate := mkNS 5 1000 3 [10; 11] 11 [].
-Definition st_catching_up : nstate := mkNS 1 1000 3 [10; 11] 11 [].
+Definition st_babbling : nstate := mkNS 0 1000 3 [10; 11] 11 [] false.
+Definition st_suspended : nstate := mkNS 5 1000 3 [10; 11] 11 [] false.
+Definition st_catching_up : nstate := mkNS 1 1000 3 [10; 11] 11 [] false.
